@@ -13,6 +13,12 @@ Driver glue for C13.
       fired = the Deferred already has a result when the reactor starts
       → the `run` line with pc `exited` once `mainLoop` has returned, followed by
         `|phase=<running|stopping|pending|crashed|exited>|fired=<0|1>|running=<0|1>`
+  `C13 lrunx …` = `lrun` where effs may also be `c` (the call's body itself does `reactor.callFromThread(…)`) and
+      `d` (a `callLater(0, …)` it schedules does, i.e. right behind the drain of the same pass).  The reactor
+      thread's own `callFromThread` is `append; wakeUp` with no other shared access of the reactor in between,
+      so the run is the model's run on the schedule in which these are two steps of thread 7 placed right
+      behind the reactor step that ran the issuing call (`c`) / that ended the drain (`d`): `lrunX` below does
+      exactly that insertion (`TwistedProps.C13.lrunX_eq_lrun`: it IS `lrun` on the schedule `desugar` builds).
 -/
 namespace Twisted.Drv.C13
 open Twisted.Reactor.ThreadQueue
@@ -78,20 +84,85 @@ def showFinal (ns : List Nat) (s : State) : String :=
   "|order=" ++ (if order then "ok" else "no") ++ "|left=" ++ toString s.queue.length ++
   "|inthread=ok"   -- calls run only in reactor steps (by construction of `step`)
 
-def decEff (s : String) : Option (Call × Eff) :=
+/-- what else the body of a call does: issue a call itself / schedule a delayed call that does -/
+inductive XEff where
+  | none | issue | later
+  deriving DecidableEq, Repr
+
+def decEffX (s : String) : Option (Call × Eff × XEff) :=
   match s.splitOn ":" with
   | [c, e] =>
     match c.splitOn "." with
     | [t, i] => do
       let t ← t.toNat?
       let i ← i.toNat?
-      let e ← if e = "s" then some Eff.stop else if e = "f" then some Eff.fire else none
+      let e ← if e = "s" then some (Eff.stop, XEff.none) else if e = "f" then some (Eff.fire, XEff.none)
+              else if e = "c" then some (Eff.none, XEff.issue) else if e = "d" then some (Eff.none, XEff.later)
+              else none
       pure (⟨t, i⟩, e)
     | _ => none
   | _ => none
 
+def decEffsX (s : String) : Option (List (Call × Eff × XEff)) :=
+  if s = "-" then some [] else (s.splitOn ",").mapM decEffX
+
+def decEff (s : String) : Option (Call × Eff) :=
+  match decEffX s with
+  | some (c, e, .none) => some (c, e)
+  | _ => none
+
 def decEffs (s : String) : Option (List (Call × Eff)) :=
   if s = "-" then some [] else (s.splitOn ",").mapM decEff
+
+def xeffOf (l : List (Call × Eff × XEff)) (c : Call) : XEff :=
+  match l.find? (fun p => p.1 == c) with
+  | some p => p.2.2
+  | none => .none
+
+/-- the reactor thread as an issuer of calls -/
+def rt : Nat := 7
+
+/-- the call this reactor step runs, if it runs one -/
+def runsCall (s : LState) : Option Call :=
+  if s.phase = .exited then none else
+  match s.base.pc with
+  | .fetch => s.base.queue[s.base.count]?
+  | _ => none
+
+/-- this reactor step ends the thread-call block of `runUntilCurrent` (the delayed calls run right behind it) -/
+def endsBlock (s : LState) : Bool :=
+  if s.phase = .exited then false else
+  match s.base.pc with
+  | .check1 | .check2 => s.base.queue.isEmpty
+  | .selfwake => true
+  | _ => false
+
+/-- the actors to insert behind one reactor step taken in state `s` with `later` delayed calls waiting;
+    and the number of delayed calls waiting afterwards -/
+def inserted (x : Call → XEff) (s : LState) (later : Nat) : List Actor × Nat :=
+  let (now, later) := match runsCall s with
+    | some c => match x c with
+      | .issue => ([Actor.thread rt, .thread rt], later)
+      | .later => ([], later + 1)
+      | .none => ([], later)
+    | none => ([], later)
+  if endsBlock s then (now ++ (List.replicate later [Actor.thread rt, .thread rt]).flatten, 0) else (now, later)
+
+/-- the schedule with the reactor thread's own calls made explicit -/
+def desugar (lc : LCfg) (x : Call → XEff) : List Actor → LState → Nat → List Actor
+  | [], _, _ => []
+  | .thread t :: rest, s, later => .thread t :: desugar lc x rest (lstep lc s (.thread t)) later
+  | .reactor :: rest, s, later =>
+    let ins := inserted x s later
+    .reactor :: ins.1 ++ desugar lc x rest (lrun lc ins.1 (lstep lc s .reactor)) ins.2
+
+/-- run a schedule, the reactor thread's own calls being made where the bodies make them -/
+def lrunX (lc : LCfg) (x : Call → XEff) : List Actor → LState → Nat → LState
+  | [], s, _ => s
+  | .thread t :: rest, s, later => lrunX lc x rest (lstep lc s (.thread t)) later
+  | .reactor :: rest, s, later =>
+    let ins := inserted x s later
+    lrunX lc x rest (lrun lc ins.1 (lstep lc s .reactor)) ins.2
 
 def effOf (l : List (Call × Eff)) (c : Call) : Eff :=
   match l.find? (fun p => p.1 == c) with
@@ -121,6 +192,12 @@ def handle (args : List String) : String :=
     match decCfg cap chunk sw, decStart start, decBool stopWakes, decBool fired, decEffs effs, decSched sched with
     | some cfg, some s0, some swk, some fd, some effs, some sched =>
       showLState sched (lrun ⟨cfg, swk, effOf effs⟩ sched ⟨s0, .running, fd⟩)
+    | _, _, _, _, _, _ => "bad-op"
+  | ["lrunx", cap, chunk, sw, start, stopWakes, fired, effs, sched] =>
+    match decCfg cap chunk sw, decStart start, decBool stopWakes, decBool fired, decEffsX effs, decSched sched with
+    | some cfg, some s0, some swk, some fd, some effs, some sched =>
+      let lc : LCfg := ⟨cfg, swk, fun c => (effOf (effs.map fun p => (p.1, p.2.1)) c)⟩
+      showLState sched (lrunX lc (xeffOf effs) sched ⟨s0, .running, fd⟩ 0)
     | _, _, _, _, _, _ => "bad-op"
   | ["run", cap, chunk, sw, start, sched] =>
     match decCfg cap chunk sw, decStart start, decSched sched with
